@@ -73,7 +73,12 @@ def instance(rng):
         hi = x0 + 0.5 + rng.random(n) * 1.5
     else:
         lo, hi = -1e20 * np.ones(n), 1e20 * np.ones(n)
-    return dict(n=n, m=m, A=A, b=b, lam=lam, x0=x0, kind=kind, bounded=bounded, lo=lo, hi=hi, with_args=bool(rng.random() < 0.5))
+    u = rng.random()
+    # option variants under which the stored objective of a point is recomputed: sample averaging (a deterministic objective
+    # sampled twice) and soft restarts that append points to a full interpolation set
+    variant = "nsamples2" if u < 0.15 else ("soft-restarts-increase-npt" if u < 0.3 else "default")
+    return dict(n=n, m=m, A=A, b=b, lam=lam, x0=x0, kind=kind, bounded=bounded, lo=lo, hi=hi, with_args=bool(rng.random() < 0.5),
+                variant=variant)
 
 
 class Sentinel:
@@ -118,6 +123,12 @@ def run_instance(dfols, I):
         kw = {}
     if I["bounded"]:
         kw["bounds"] = (I["lo"], I["hi"])
+    if I.get("variant") == "nsamples2":
+        kw["nsamples"] = lambda delta, rho, it, nruns: 2
+    elif I.get("variant") == "soft-restarts-increase-npt":
+        kw["user_params"] = {"restarts.use_restarts": True, "restarts.increase_npt": True, "restarts.max_npt": I["n"] + 3}
+        kw["maxfun"] = 60 * (I["n"] + 1)
+    np.random.seed(0)
     try:
         s = core.with_alarm(90, dfols.solve, lambda x: A @ x - b, I["x0"], h=h, lh=lh, prox_uh=prox, do_logging=False, **kw)
         return s, calls, None
@@ -207,17 +218,27 @@ def search(ctx):
         xs, Fs = fista_l1_box(I["A"], I["b"], I["lam"], I["lo"], I["hi"]) if I["kind"] == "l1" else lbfgs_l2_box(I["A"], I["b"], I["lam"], I["lo"], I["hi"])
         s, calls, exc = run_instance(dfols, I)
         tag = "%s|%s|%s" % (I["kind"], "bounded" if I["bounded"] else "unbounded", "args" if I["with_args"] else "noargs")
+        if I.get("variant", "default") != "default":
+            tag += "|" + I["variant"]
         rp = {"seed": seed}
         if exc is not None:
             ctx.fail("C06:raises:%s|%s" % (type(exc).__name__, tag), "solve raised %r" % (exc,), rp)
             continue
         for bad in calls["bad"][:1]:
             ctx.fail("C06:args-not-passed-through|" + tag, bad, rp)
-        gap = float(s.obj) - Fs
+        # the objective AT the returned point, computed here (soln.obj may be a stale or misplaced stored value)
+        rx = I["A"] @ np.asarray(s.x, dtype=float) - I["b"]
+        hx = I["lam"] * (float(np.sum(np.abs(s.x))) if I["kind"] == "l1" else float(np.linalg.norm(s.x)))
+        Fx = float(rx @ rx) + hx
+        if not abs(float(s.obj) - Fx) <= 1e-9 * (1 + abs(Fx)):
+            ctx.fail("C06:obj-is-not-F(x)|" + tag, "soln.obj=%r but sum(r^2)+h at soln.x is %r" % (s.obj, Fx), rp)
+        gap = max(float(s.obj), Fx) - Fs
         stats["worst_gap"] = max(stats["worst_gap"], gap / (1 + Fs))
+        stats[I.get("variant", "default")] = stats.get(I.get("variant", "default"), 0) + 1
         if not (gap <= 1e-3 * (1 + Fs)):
-            ctx.fail("C06:not-optimal|" + tag, "soln.obj=%r but F*=%r (gap %.2e > 1e-3(1+F*)), flag %d after %d evals" % (s.obj, Fs, gap, s.flag, s.nf), rp)
-        elif s.flag != 0:
+            ctx.fail("C06:not-optimal|" + tag, "F(soln.x)=%r but F*=%r (gap %.2e > 1e-3(1+F*)), flag %d after %d evals" % (max(float(s.obj), Fx), Fs, gap, s.flag, s.nf), rp)
+        elif s.flag != 0 and not (I.get("variant") == "soft-restarts-increase-npt" and s.flag == 1):
+            # (with restarts switched on a run legitimately continues until the budget is spent: flag 1 is not held against it)
             ctx.fail("C06:optimal-but-flag=%d|%s" % (s.flag, tag), "objective within tolerance but flag %d (%s)" % (s.flag, s.msg), rp)
         else:
             stats["ok"] += 1
